@@ -94,22 +94,25 @@ DEDUP_FUNCS = {"set", "frozenset", "unique", "fromkeys", "sorted", "reversed", "
 
 def seq_transformers(t: ast.AST) -> List[str]:
     """Names of calls wrapped around a sequence term that are *not* the neutral normalisation idiom."""
+    from ..defuse import _norm_step
+
     out = []
     cur = t
     while True:
         if is_sym(cur, "norm"):
             cur = cur.args[0]
             continue
+        st = _norm_step(cur)
+        if st is not None:
+            cur = st[2]
+            continue
         if isinstance(cur, ast.Call) and not is_sym(cur):
-            fn = call_fname(cur)
-            if fn in ("array", "asarray", "atleast_1d", "list", "tuple", "repeat", "flatten", "ravel", "tolist", "copy", "astype"):
-                cur = cur.func.value if (isinstance(cur.func, ast.Attribute) and fn in ("flatten", "ravel", "tolist", "copy", "astype")) else (cur.args[0] if cur.args else cur)
-                if cur is t:
-                    break
-                continue
-            out.append(fn)
+            out.append(call_fname(cur))
             if cur.args:
-                cur = cur.args[0]
+                cur = cur.args[-1] if call_fname(cur) == "fromkeys" else cur.args[0]
+                continue
+            if isinstance(cur.func, ast.Attribute):
+                cur = cur.func.value
                 continue
         if isinstance(cur, ast.Subscript):
             out.append("subscript")
